@@ -399,6 +399,7 @@ def run(c, prog):
     rule_memo(c, prog)
     from . import C08
     C08.rule_own(core.Alias(c, "C15"), prog)     # binary writer: an explicit (canonical) value is looked up before any legacy alias
+    C08.rule_pref(core.Alias(c, "C15"), prog)    # ... and an explicit value under an alias of the new property before a legacy spelling
     from . import C10
     C10.rule_frame(core.Alias(c, "C15"), prog)    # the binary reader's `explicit value pushed later wins` relies on WeakDom::insert keeping the LAST of two builder entries
     rule_item_map(c, prog)
